@@ -43,6 +43,7 @@ def run(ctx):
     ctx.rule(energy_impulse)
     ctx.rule(si_finalize, "R-C03-frame-count")
     ctx.rule(log_floor_live)
+    ctx.rule(any_layout)
 
 
 def _si(prog):
@@ -570,3 +571,12 @@ def log_floor_live(ctx, R="R-C03-logfloor"):
     not captured in a default argument, a module-level constant, a from-import or (C02: the constructor)"""
     from .c07 import config_live
     config_live(ctx, R, floor=3, module="compute", attr="LOG_FLOOR_VALUE")
+
+
+def any_layout(ctx, R="R-C03-dtype-in"):
+    """every signal is a valid input whatever its memory layout (strided views, Fortran order): nothing is refused on .flags / .strides"""
+    from . import partial
+    prog = ctx.prog
+    c = prog.cls("compute.ShortIntegrationFrameComputer")
+    roots = [m for m in (prog.find_method(c, n) for n in ("compute_full", "compute_chunk", "finalize")) if m is not None]
+    partial.layout_independent(ctx, R, roots)
